@@ -244,7 +244,7 @@ func kinds() []*Kind {
 					},
 					"authentication_data_source": []any{map[string]any{"header": "X-Session"}},
 					"subject":                    map[string]any{"id": "sub"},
-					"forward_headers":            []any{"X-Trace"},
+					"forward_headers":            []any{"X-Trace", "X-Another"},
 					"session_lifespan":           map[string]any{"active": "active", "not_after": "exp"},
 					"cache_ttl":                  "5m",
 				}
@@ -391,8 +391,8 @@ func kinds() []*Kind {
 						"url":     "http://" + hostAPI + "/ctx?t={{ .Values.tenant }}",
 						"headers": map[string]any{"X-Val": "{{ .Values.tenant }}"},
 					},
-					"forward_headers":            []any{"X-Fwd"},
-					"forward_cookies":            []any{"sess"},
+					"forward_headers":            []any{"X-Zeta", "X-Fwd", "X-Alpha"},
+					"forward_cookies":            []any{"zz", "sess", "aa"},
 					"payload":                    "user={{ .Subject.ID }}",
 					"cache_ttl":                  "1m",
 					"continue_pipeline_on_error": false,
@@ -400,7 +400,7 @@ func kinds() []*Kind {
 				}
 			},
 			Options: []Option{
-				{Name: "forward_headers", A: []any{"X-Fwd2"}},
+				{Name: "forward_headers", A: []any{"X-Zz", "X-Fwd2", "X-Aa"}},
 				{Name: "forward_cookies", A: []any{"other"}},
 				{Name: "payload", A: "u={{ .Subject.ID }}/{{ .Values.tenant }}"},
 				{Name: "cache_ttl", A: "0s", B: "3m"},
